@@ -174,6 +174,9 @@ class FinamInterp(Interp):
         return super().binop(op, left, right, node)
 
     def ext_call(self, name, args, kwargs, node):
+        if name in ("partial", "functools.partial") and args:
+            from .interp import Partial
+            return Partial(args[0], args[1:], kwargs)
         short = name.split(".")[-1]
         if short in ("asarray", "array") and args and isinstance(args[0], (tuple, list)) and all(isinstance(x, int) for x in args[0]):
             return Vec(args[0])
